@@ -180,12 +180,14 @@ def mergePortion (cur base other : Nat) : Option Nat :=
   else none
 
 /-- `MutableRepo::merge(base_repo, other_repo)` on the current view, for the cases the model
-covers: the current view is the base (the result is the other side), or the reverted operation
-moved neither heads nor working copies and every portion is changed on one side only.  `none`:
-not modelled (a genuine merge of heads / bookmark targets, see C13). -/
+covers: the current view is the base (the result is the other side), or no side moved heads or
+working copies (then `record_rewrites` finds nothing to rebase and no reference is rewritten) and
+every other portion is changed on one side only.  `none`: not modelled — a genuine merge of heads
+or reference targets, including the rewriting of restored references to the current version of a
+commit (see C13). -/
 def mergeView (cur base other : View) : Option View :=
   if cur = base then some other
-  else if base.heads = other.heads ∧ base.wc = other.wc then do
+  else if base.heads = other.heads ∧ cur.heads = base.heads ∧ base.wc = other.wc then do
     let bookmarks ← mergePortion cur.bookmarks base.bookmarks other.bookmarks
     let tags ← mergePortion cur.tags base.tags other.tags
     let remotes ← mergePortion cur.remotes base.remotes other.remotes
